@@ -22,8 +22,9 @@ type c19Case struct {
 	TbsSig  int  `json:"tbsSig"`
 	PkAlg   int  `json:"pkAlg"`
 	PkBits  int  `json:"pkBits"`
-	Sub     bool `json:"sub"`    // subordinate (else root)
-	ExtSet  int  `json:"extSet"` // 0 none, 1 SKI+AKI hash, 2 all kinds
+	Sub     bool `json:"sub"`           // subordinate (else root)
+	ExtSet  int  `json:"extSet"`        // 0 none, 1 SKI+AKI hash, 2 all kinds
+	CSR     bool `json:"csr,omitempty"` // the (subordinate) entity has only a certificate request, no private key
 }
 
 var c19Versions = []int64{0, 1, 2, 3, 255}
@@ -40,6 +41,10 @@ func c19Enumerate(tier string, yield func(any)) {
 			for es := 0; es < 3; es++ {
 				yield(&c19Case{Version: v[0], Outer: v[1], SigVal: v[2], TbsSig: v[3], PkAlg: v[4], PkBits: v[5], Sub: sub, ExtSet: es})
 			}
+		}
+		// the key material may also come from a certificate request (subordinates only)
+		for es := 0; es < 2; es++ {
+			yield(&c19Case{Version: v[0], Outer: v[1], SigVal: v[2], TbsSig: v[3], PkAlg: v[4], PkBits: v[5], Sub: true, ExtSet: es, CSR: true})
 		}
 	}
 	seen := map[string]bool{}
@@ -155,7 +160,12 @@ func c19Dir(c *c19Case, withManip bool) (*Dir, *refcfg.CertCfg) {
 func c19Exec(x *engine.Ctx, cc any) {
 	c := cc.(*c19Case)
 	pre := func(w *simfs.World) {
-		w.Put("ent.pem", FixtureKeyPEM("RSA-1024-0"))
+		if c.CSR {
+			k, _ := refx509.ParsePKCS8(FixtureKeyDER("RSA-1024-0"))
+			w.Put("ent.pem", refx509.EncodePem("CERTIFICATE REQUEST", refx509.BuildCSR(k, "manipulated", nil)))
+		} else {
+			w.Put("ent.pem", FixtureKeyPEM("RSA-1024-0"))
+		}
 		if c.Sub {
 			w.Put("ca.pem", FixtureKeyPEM("RSA-2048-0"))
 		}
@@ -185,7 +195,12 @@ func c19Exec(x *engine.Ctx, cc any) {
 	if m.TbsPubKey != nil {
 		keys = append(keys, ".tbs.subjectPublicKey.subjectPublicKey")
 	}
-	feat := "keys=" + strings.Join(keys, ",")
+	// class feature: role and key source (the key set goes into the detail text)
+	feat := map[bool]string{true: "subordinate", false: "root"}[c.Sub]
+	if c.CSR {
+		feat += " key-from=request"
+	}
+	keySet := "manipulated: " + strings.Join(keys, ", ")
 	if gm.Res.Panic != "" || gb.Res.Panic != "" {
 		x.Violation("C19/panic/"+gm.Res.PanicSite+gb.Res.PanicSite, gm.Res.Panic+gb.Res.Panic)
 		return
@@ -208,7 +223,7 @@ func c19Exec(x *engine.Ctx, cc any) {
 		return
 	}
 	for _, df := range diffs {
-		x.Violation("C19/"+strings.TrimPrefix(df.Class, df.Owner+"/")+" ["+feat+"]", df.Detail)
+		x.Violation("C19/"+strings.TrimPrefix(df.Class, df.Owner+"/")+" ["+feat+"]", keySet+"\n"+df.Detail)
 	}
 	// (2) differential: every TBS field other than the named ones is byte-identical to the unmanipulated certificate
 	may := map[string]bool{}
@@ -236,7 +251,7 @@ func c19Exec(x *engine.Ctx, cc any) {
 			continue
 		}
 		if !bytes.Equal(ab.Cert.FieldRaw[n], am.Cert.FieldRaw[n]) {
-			x.Violation("C19/collateral-change field="+n+" ["+feat+"]", fmt.Sprintf("field %s differs from the unmanipulated certificate:\n  base %x\n  manip %x", n, ab.Cert.FieldRaw[n], am.Cert.FieldRaw[n]))
+			x.Violation("C19/collateral-change field="+n+" ["+feat+"]", fmt.Sprintf("%s\nfield %s differs from the unmanipulated certificate:\n  base %x\n  manip %x", keySet, n, ab.Cert.FieldRaw[n], am.Cert.FieldRaw[n]))
 		}
 	}
 	tbsManip := m.Version != nil || m.TbsSig != nil || m.TbsPubKeyAlg != nil || m.TbsPubKey != nil
@@ -267,7 +282,11 @@ func c19Exec(x *engine.Ctx, cc any) {
 		}
 	}
 	// the private key on disk is untouched by key manipulations
-	if am.Key == nil || ab.Key == nil || am.Key.Ident() != ab.Key.Ident() {
+	if c.CSR {
+		if am.Pem.NumKeys != 0 || am.Pem.ReqDER == nil || !bytes.Equal(am.Pem.ReqDER, ab.Pem.ReqDER) {
+			x.Violation("C19/request-changed ["+feat+"]", "")
+		}
+	} else if am.Key == nil || ab.Key == nil || am.Key.Ident() != ab.Key.Ident() {
 		x.Violation("C19/private-key-changed ["+feat+"]", "")
 	}
 	x.Outcome(fmt.Sprintf("compared nkeys=%d", len(keys)))
@@ -277,7 +296,7 @@ func init() {
 	register(&engine.Check{
 		ID:          "C19",
 		Level:       "exploration",
-		Rule:        "all 64 subsets of the six manipulation keys (one value each), every single key with every value (version {0,1,2,3,255}; OIDs {1.2.3.4, sha256WithRSA, ecdsa-with-SHA256, 2.999.1}; byte fields {!empty,!null,4 B,100 B}), value products for pairs (quick, half) / for all subsets of size <=4 (thorough), each x {root, subordinate} x extension set {none, SKI+AKI hash, all kinds}. Existing RSA keys, configured serial and absolute dates make the certificate deterministic: it is compared (1) field by field with the reference translation, (2) differentially with the same configuration without the block (every other TBS field byte-identical; outer-only manipulations leave TBS and RSA signature identical), (3) signature verified over the actual TBS bytes with the real issuer key. non-trivial = distinct case",
+		Rule:        "all 64 subsets of the six manipulation keys (one value each), every single key with every value (version {0,1,2,3,255}; OIDs {1.2.3.4, sha256WithRSA, ecdsa-with-SHA256, 2.999.1}; byte fields {!empty,!null,4 B,100 B}), value products for pairs (quick, half) / for all subsets of size <=4 (thorough), each x {root, subordinate, subordinate whose key material is a certificate request} x extension set {none, SKI+AKI hash, all kinds}. Existing RSA keys, configured serial and absolute dates make the certificate deterministic: it is compared (1) field by field with the reference translation, (2) differentially with the same configuration without the block (every other TBS field byte-identical; outer-only manipulations leave TBS and RSA signature identical), (3) signature verified over the actual TBS bytes with the real issuer key. non-trivial = distinct case",
 		Bound:       map[string]string{"subset size with full value product": "quick 2 (half), thorough 4"},
 		Assumptions: []string{"RSA PKCS#1 v1.5 signing is deterministic"},
 		Budget:      budgets(quickBudget, thoroughBudget),
